@@ -15,6 +15,7 @@ var replayFns = map[string]func(path string) int{}
 
 var (
 	flagRunner string
+	flagDeep   bool // a proof obligation is broken: search harder for a failing input
 )
 
 func main() {
@@ -31,6 +32,7 @@ func main() {
 	known := fs.String("known", "/verif/known_findings.txt", "known findings file")
 	fs.StringVar(&flagRunner, "runner", "/verif/runner/model", "extracted model runner")
 	replay := fs.String("replay", "", "replay file")
+	fs.BoolVar(&flagDeep, "deep", false, "search at higher intensity (used when an obligation is broken)")
 	fs.Parse(os.Args[2:])
 	if *replay != "" {
 		os.Exit(replayFile(*replay))
